@@ -116,3 +116,28 @@ Inductive reaches (h : heap) : value -> value -> Prop :=
 | ReachStep : forall v w u, child h v w -> reaches h w u -> reaches h v u.
 Definition contains_itself (h : heap) (v : value) : Prop :=
   exists w, child h v w /\ reaches h w v.
+
+(* the rendering of a JSON tree as print shows it (a pure function of the tree):
+   [a, b] and {"k": v}, nested strings double-quoted, numbers as format_f *)
+Fixpoint jrender (quote : bool) (j : jvalue) : bytes :=
+  match j with
+  | JNull => bs "null"
+  | JBool true => bs "true"
+  | JBool false => bs "false"
+  | JNum f => format_f f
+  | JStr s => if quote then 34%N :: s ++ [34%N] else s
+  | JArr l =>
+    91%N :: (fix items (l : list jvalue) (first : bool) : bytes :=
+               match l with
+               | [] => []
+               | x :: r => (if first then [] else bs ", ") ++ jrender true x ++ items r false
+               end) l true ++ [93%N]
+  | JObj l =>
+    123%N :: (fix fields (l : list (bytes * jvalue)) (first : bool) : bytes :=
+                match l with
+                | [] => []
+                | (k, x) :: r =>
+                  (if first then [] else bs ", ") ++ 34%N :: k ++ 34%N :: bs ": " ++
+                  jrender true x ++ fields r false
+                end) l true ++ [125%N]
+  end.
